@@ -212,7 +212,7 @@ def generate(rng, focus, tier="quick"):
                     "fault": kind}
         if kind in ("clock_regress", "clock_regress_pending"):
             return {"k": "tick", "back": rng.choice([1, 60, 3600, 7 * 3600, DAY, 3 * DAY, 30 * DAY]),
-                    "fault": kind}
+                    "stay": rng.random() < 0.5, "fault": kind}
         raise AssertionError(kind)
 
     while len(ops) < n_ops:
@@ -744,14 +744,64 @@ class Exec(object):
         self.ctx.event("quote", op["asset"], float(op["bid"]), float(op["ask"]))
         return False
 
+    def _must_refuse(self, t):
+        """Reference rule for broker.update(t): which clock, if any, makes the update illegal.
+
+        A: an open position carries the time of the last successful update (its last mark or fill),
+           so an earlier update must be refused by the first mark;
+        B: fills are stamped with the update time, and a portfolio refuses a transaction earlier than
+           its own clock, so an in-hours update earlier than the clock of a portfolio with pending
+           orders must be refused before anything happens.
+        Both are only reachable after the broker clock has been moved backwards.
+        """
+        m = self.m
+        if m.any_position() and m.last_tick is not None and t < m.last_tick:
+            return "clock_regress", "update(earlier than the last mark of an open position)"
+        if is_open_ref(t) and any(p.pending and t < p.clock for p in m.pfs.values()):
+            return "clock_regress_pending", "update(earlier than the clock of a portfolio with pending orders)"
+        return None
+
+    def _follow_broker_clock(self):
+        # the broker clock is not state any property lists; after a refused or optional update the
+        # model simply follows it (DESIGN section 3, rule 7)
+        self.m.now = epoch(self.s.broker.current_dt)
+
     def op_tick(self, op):
         s, m, ctx = self.s, self.m, self.ctx
         if "back" in op:
             t = m.now - int(op["back"])
         else:
             t = int(op["t"])
-        if t < m.now:
-            return self._regress(op, t)
+        old_now = m.now
+        must = self._must_refuse(t)
+        if must is not None:
+            self.refused(must[0], lambda: s.broker.update(ts(t)), (ValueError,), must[1])
+            self._follow_broker_clock()
+            regressed = True
+        elif t < m.now:
+            if is_open_ref(t) and m.any_pending():
+                # would legally fill at an earlier time: outside every property's domain, not issued
+                ctx.probe("regress_would_fill_skipped")
+                return False
+            # nothing to mark, nothing to fill: no portfolio-level request is involved. Whether the
+            # broker accepts the earlier time or refuses it with ValueError is not part of any
+            # property; either way the listed state must not move (DESIGN section 4, C15)
+            ok, exc = self.refused("clock_regress_idle", lambda: s.broker.update(ts(t)), (ValueError,),
+                                   "update(earlier time) with nothing to mark or fill", optional=True)
+            ctx.probe("regress_idle_accepted" if ok else "regress_idle_refused")
+            self._follow_broker_clock()
+            regressed = True
+        else:
+            return self._forward_tick(t)
+        if regressed and m.now < old_now:
+            if op.get("stay"):
+                ctx.probe("run_continues_on_regressed_broker_clock")
+            elif self._must_refuse(old_now) is None:
+                self._forward_tick(old_now)   # re-synchronise the clocks with a tick at the last instant
+        return True
+
+    def _forward_tick(self, t):
+        s, m, ctx = self.s, self.m, self.ctx
         open_ = is_open_ref(t)
         if t == m.now and m.last_tick == t:
             ctx.fault("dup_tick")
@@ -839,56 +889,6 @@ class Exec(object):
             if open_:
                 m.pfs[pid].pending = []
         return False
-
-    def _regress(self, op, t):
-        """broker.update with a time earlier than the broker clock (a scheduled clock fault)."""
-        s, m, ctx = self.s, self.m, self.ctx
-        has_pos = m.any_position()
-        tstamp = ts(t)
-        recover = True
-        will_fill = is_open_ref(t) and m.any_pending()
-        early = [pid for pid in m.order if m.pfs[pid].pending and t < m.pfs[pid].clock]
-        if has_pos:
-            # every open position carries the last tick's time, so the first mark must refuse
-            self.refused("clock_regress", lambda: s.broker.update(tstamp), (ValueError,),
-                         "update(earlier time) with open positions")
-        elif will_fill and early:
-            # fills would carry a time earlier than the portfolio clock: a timestamped request
-            # the portfolio refuses -> nothing may change, pending orders included
-            self.refused("clock_regress_pending", lambda: s.broker.update(tstamp), (ValueError,),
-                         "update(earlier time) with pending orders")
-        elif will_fill:
-            # would legally fill at an earlier time; outside every property's domain, not issued
-            ctx.probe("regress_would_fill_skipped")
-            return False
-        else:
-            # no position, nothing to fill: no portfolio-level request is involved. Whether the broker
-            # accepts the earlier time or refuses it with ValueError is not part of the property;
-            # either way the listed state must not move (DESIGN section 4, C15)
-            ok, exc = self.refused("clock_regress_idle", lambda: s.broker.update(tstamp), (ValueError,),
-                                   "update(earlier time) with nothing to mark or fill", optional=True)
-            ctx.probe("regress_idle_accepted" if ok else "regress_idle_refused")
-        if recover:
-            # rule 7: re-synchronise every clock with a tick at the last instant
-            back = m.now
-            n_cap = len(s.captured)
-            pend_before = {pid: list(m.pfs[pid].pending) for pid in m.order}
-            marks = [(pid, a, s.qb.mid(a)) for pid in m.order for a in m.pfs[pid].pos]
-            ok, exc = self._call(s.broker.update, ts(back))
-            ctx.event("resync", back, ok, len(s.captured) - n_cap)
-            if not ok:
-                for pr in ("C15", "C04", "C01", "C02"):
-                    ctx.violate(pr, "resync_update_raised", {"exc": repr(exc)[:300]},
-                                sig="resync_update_raised")
-                raise StopRun()
-            for pid, a, mid in marks:
-                m.pfs[pid].pos[a].last = mid
-            for c in s.captured[n_cap:]:
-                self._apply_fill(c, back, ts(back))
-            if is_open_ref(back):
-                for pid in m.order:
-                    m.pfs[pid].pending = []
-        return True
 
     def _apply_fill(self, c, t, tstamp):
         """Book one captured transaction into the ledger; judge C05 on it."""
